@@ -351,6 +351,16 @@ PUB_STD = {"quick": ["-families", "inbox,outbox,get", "-n", "6", "-faults", "sin
            "thorough": ["-families", "inbox,outbox,get", "-n", "40", "-faults", "single", "-maxruns", "30000", "-shards", "14"]}
 
 
+def prune_cache(d, keep):
+    """The cache of harness runs is keyed on the tree state: every changed tree adds entries. Keep the newest ones."""
+    try:
+        ents = sorted((os.path.join(d, e) for e in os.listdir(d)), key=os.path.getmtime)
+        for e in ents[:-keep] if len(ents) > keep else []:
+            shutil.rmtree(e, ignore_errors=True)
+    except OSError:
+        pass
+
+
 def pub_run(ctx, tag, args, cases_tpl="PubMonitorCases.v"):
     """Run the pub harness with args, replay + monitors in Coq. Cached per tree state."""
     okb, outb = harness_build(ctx)
@@ -368,6 +378,7 @@ def pub_run(ctx, tag, args, cases_tpl="PubMonitorCases.v"):
         ctx.note("pub run %s: cached (%s)" % (tag, key))
         return json.load(open(res_path))
     os.makedirs(cdir, exist_ok=True)
+    prune_cache(os.path.join(ROOT, "run", "pubcache"), keep=60)
     b = os.path.join(ROOT, "tools", "bin", "harness")
     rc, out, dt = sh([b, "pub"] + args + ["-out", cdir, "-seed", str(ctx.seed), "-tier", ctx.tier], timeout=3000)
     ctx.note("harness pub %s rc=%d (%.1fs) %s" % (tag, rc, dt, out.strip()[-80:]))
